@@ -1269,6 +1269,10 @@ class Engine(object):
     after replaying doc actions that already say what these columns hold (a revert, undo, redo):
     the cells that trigger formulas depend on change in the replay, but it is not an edit.
     """
+    if self._in_update_loop:
+      # Undoing the side effects of a formula that failed, in the middle of a recalculation:
+      # what is pending there is the recalculation itself.
+      return
     for node in list(self.recompute_map):
       table = self.tables.get(node.table_id)
       col = table.all_columns.get(node.col_id) if table else None
